@@ -40,6 +40,91 @@ impl FungibleToken for Tok {
 #[contractimpl(contracttrait)]
 impl FungibleBurnable for Tok {}
 
+/// The LIBRARY types of the flavours with every entry point they define routed through them
+/// (the example contracts expose no burn for votes / block-list and no mint for the lists):
+/// `FungibleVotes::{mint, burn, burn_from}`, `AllowList::{burn, burn_from}`,
+/// `BlockList::{burn, burn_from}` + the `ContractType` dispatch for the rest. Gates open.
+mod libflavors {
+    use soroban_sdk::{contract, contractimpl, Address, Env, MuxedAddress, String as SString};
+    use stellar_governance::votes::Votes;
+    use stellar_tokens::fungible::{
+        allowlist::AllowList, blocklist::BlockList, burnable::FungibleBurnable, votes::FungibleVotes, Base, FungibleToken,
+    };
+
+    #[contract]
+    pub struct VotesLib;
+    #[contractimpl]
+    impl VotesLib {
+        pub fn mint(e: &Env, to: Address, amount: i128) {
+            FungibleVotes::mint(e, &to, amount);
+        }
+    }
+    #[contractimpl(contracttrait)]
+    impl FungibleToken for VotesLib {
+        type ContractType = FungibleVotes;
+    }
+    #[contractimpl(contracttrait)]
+    impl Votes for VotesLib {}
+    #[contractimpl(contracttrait)]
+    impl FungibleBurnable for VotesLib {
+        fn burn(e: &Env, from: Address, amount: i128) {
+            FungibleVotes::burn(e, &from, amount);
+        }
+        fn burn_from(e: &Env, spender: Address, from: Address, amount: i128) {
+            FungibleVotes::burn_from(e, &spender, &from, amount);
+        }
+    }
+
+    #[contract]
+    pub struct AllowLib;
+    #[contractimpl]
+    impl AllowLib {
+        pub fn mint(e: &Env, to: Address, amount: i128) {
+            Base::mint(e, &to, amount);
+        }
+        pub fn allow(e: &Env, user: Address) {
+            AllowList::allow_user(e, &user);
+        }
+    }
+    #[contractimpl(contracttrait)]
+    impl FungibleToken for AllowLib {
+        type ContractType = AllowList;
+    }
+    #[contractimpl(contracttrait)]
+    impl FungibleBurnable for AllowLib {
+        fn burn(e: &Env, from: Address, amount: i128) {
+            AllowList::burn(e, &from, amount);
+        }
+        fn burn_from(e: &Env, spender: Address, from: Address, amount: i128) {
+            AllowList::burn_from(e, &spender, &from, amount);
+        }
+    }
+
+    #[contract]
+    pub struct BlockLib;
+    #[contractimpl]
+    impl BlockLib {
+        pub fn mint(e: &Env, to: Address, amount: i128) {
+            Base::mint(e, &to, amount);
+        }
+    }
+    #[contractimpl(contracttrait)]
+    impl FungibleToken for BlockLib {
+        type ContractType = BlockList;
+    }
+    #[contractimpl(contracttrait)]
+    impl FungibleBurnable for BlockLib {
+        fn burn(e: &Env, from: Address, amount: i128) {
+            BlockList::burn(e, &from, amount);
+        }
+        fn burn_from(e: &Env, spender: Address, from: Address, amount: i128) {
+            BlockList::burn_from(e, &spender, &from, amount);
+        }
+    }
+    #[allow(dead_code)]
+    fn _unused(_: MuxedAddress, _: SString) {}
+}
+
 const N: usize = 5;
 const MAX_TTL: u32 = 200_000;
 
@@ -51,6 +136,9 @@ enum Flavor {
     Pausable,
     Votes,
     Capped,
+    VotesLib,
+    AllowLib,
+    BlockLib,
 }
 
 struct Sim {
@@ -102,8 +190,17 @@ impl Sim {
             }
             Flavor::Capped => e.register(ex_capped::ExampleContract, (i128::MAX,)),
             Flavor::Base => e.register(Tok, ()),
+            Flavor::VotesLib => e.register(libflavors::VotesLib, ()),
+            Flavor::AllowLib => e.register(libflavors::AllowLib, ()),
+            Flavor::BlockLib => e.register(libflavors::BlockLib, ()),
         };
         let mut s = Sim { e, u, tok, now: start, min_temp, flavor, mint_auth, max_ttl };
+        if flavor == Flavor::AllowLib {
+            for i in 0..N {
+                let r = call(&s.e, &s.tok, "allow", args(&s.e, [v(&s.e, s.u.a(i))]), &[]);
+                assert!(r.is_some(), "allow failed");
+            }
+        }
         if flavor == Flavor::AllowList {
             for i in 0..N {
                 let r = call(&s.e, &s.tok, "allow_user", args(&s.e, [v(&s.e, s.u.a(i)), v(&s.e, s.u.a(0))]), &[s.u.a(0)]);
@@ -121,7 +218,7 @@ impl Sim {
     }
     fn supports(&self, kind: &str) -> bool {
         match self.flavor {
-            Flavor::Base | Flavor::Pausable => true,
+            Flavor::Base | Flavor::Pausable | Flavor::VotesLib | Flavor::AllowLib | Flavor::BlockLib => true,
             Flavor::AllowList => kind != "mint",
             Flavor::BlockList => !matches!(kind, "mint" | "burn" | "burn_from"),
             Flavor::Votes | Flavor::Capped => !matches!(kind, "burn" | "burn_from"),
@@ -326,6 +423,33 @@ fn scenario_long_idle(t: &mut Trace) {
     }
 }
 
+/// every entry point of the LIBRARY flavour types, including the burns the examples do not expose
+fn scenario_lib_flavors(t: &mut Trace) {
+    for flavor in [Flavor::VotesLib, Flavor::AllowLib, Flavor::BlockLib] {
+        t.seq(&format!("directed library flavour min_temp=1 start=100 flavor={:?}", flavor));
+        let mut s = Sim::new_flavor(t, flavor, 1, 100, 0);
+        s.exec(t, "mint", &[0], 1000, 0, &[]);
+        s.exec(t, "mint", &[1], 0, 0, &[]);
+        s.exec(t, "transfer", &[0, 1], 250, 0, &[0]);
+        s.exec(t, "transfer", &[0, 0], 10, 0, &[0]);
+        s.exec(t, "approve", &[0, 2], 400, 150, &[0]);
+        s.exec(t, "transfer_from", &[2, 0, 3], 100, 0, &[2]);
+        s.exec(t, "burn_from", &[2, 0], 120, 0, &[2]);
+        s.exec(t, "burn_from", &[2, 0], 120, 0, &[0]);
+        s.exec(t, "burn_from", &[2, 0], 180, 0, &[2]);
+        s.exec(t, "burn_from", &[2, 0], 1, 0, &[2]);
+        s.exec(t, "burn", &[1], 50, 0, &[1]);
+        s.exec(t, "burn", &[1], 201, 0, &[1]);
+        s.exec(t, "burn", &[3], 0, 0, &[3]);
+        s.exec(t, "approve", &[1, 1], 30, 150, &[1]);
+        s.exec(t, "burn_from", &[1, 1], 30, 0, &[1]);
+        s.advance(t, 60);
+        s.exec(t, "transfer_from", &[2, 0, 3], 1, 0, &[2]);
+        s.exec(t, "mint", &[4], i128::MAX, 0, &[]);
+        s.exec(t, "mint", &[4], i128::MAX - 600, 0, &[]);
+    }
+}
+
 fn scenario_directed(t: &mut Trace) {
     // hand-written regression histories; run first on every invocation
     t.seq("directed self-transfer, zero, overflow boundary, expiry min_temp=1 start=100");
@@ -379,6 +503,9 @@ fn main() {
     let mut rng = Rng::new(seed);
     scenario_long_idle(&mut t);
     scenario_directed(&mut t);
+    if std::env::args().any(|a| a == "--flavors") {
+        scenario_lib_flavors(&mut t);
+    }
     let flavors = std::env::args().any(|a| a == "--flavors");
     for k in 0..nseq {
         let min_temp = if rng.chance(50) { 1 } else { 16 };
@@ -386,7 +513,8 @@ fn main() {
         // with --flavors every other sequence runs one of the example contracts with its
         // gates open (must behave exactly like Base)
         let flavor = if flavors && k % 2 == 1 {
-            *rng.pick(&[Flavor::AllowList, Flavor::BlockList, Flavor::Pausable, Flavor::Votes, Flavor::Capped])
+            *rng.pick(&[Flavor::AllowList, Flavor::BlockList, Flavor::Pausable, Flavor::Votes, Flavor::Capped,
+                        Flavor::VotesLib, Flavor::AllowLib, Flavor::BlockLib])
         } else {
             Flavor::Base
         };
